@@ -35,6 +35,10 @@ let delegated p = p.p_kind = KDelegated
 let handle kind c =
   match kind with
   | "start" ->
+    let (cfg_dir, env_dir, src) = (match next c with
+        | "cfg" -> (true, false, "Config.TelemetryDir") | "env" -> (false, true, "user config dir")
+        | "none" -> (false, false, "none (os.UserConfigDir fails, no TelemetryDir)")
+        | t -> failwith ("bad dir source " ^ t)) in
     let entry = (match next c with
         | "start" -> EntryStart | "maybechild" -> EntryMaybeChild
         | t -> failwith ("bad entry " ^ t)) in
@@ -55,7 +59,8 @@ let handle kind c =
     ignore mset;
     let cfg = { c_crash = crash; c_upload = upload } in
     (* model vs implementation *)
-    let r = program_run entry marker uv cfg mode ld period now0 tok in
+    let r = program_run_env entry cfg_dir env_dir marker uv cfg mode ld period now0 tok in
+    let emode = effective_mode (dir_known cfg_dir env_dir) mode in
     let want_outcome = match r.r_outcome with
       | OReturned -> "returned" | OChildExit -> "exit0-in-start" | OFatal -> "fatal" in
     let got_outcome =
@@ -63,7 +68,7 @@ let handle kind c =
       else if exit = 0 then "exit0-in-start"
       else if exit = 1 then "fatal" else Printf.sprintf "exit%d" exit in
     check_eq "outcome" (fun s -> s) want_outcome got_outcome;
-    let want = spawned_e fuel entry marker uv cfg mode ld period now0 tok in
+    let want = spawned_env fuel entry cfg_dir env_dir marker uv cfg mode ld period now0 tok in
     (* the crash monitor of a sidecar exits the process as soon as its parent
        is gone, possibly before the uploader ran the go command: with crash
        reporting on, the delegated process is optional *)
@@ -87,17 +92,17 @@ let handle kind c =
     if (not m_writes) && changed then diff "dir-unchanged" ~model:"unchanged" ~impl:"changed";
     (* the property on the observations *)
     let detail () =
-      Printf.sprintf "entry=%s marker=\"%s\" upload_var=%b crash=%b upload=%b mode=\"%s\" token=%s procs=%s token_created=%b dir_changed=%b"
-        (match entry with EntryStart -> "Start" | EntryMaybeChild -> "MaybeChild-then-Start") (esc marker) uv crash upload (esc mode)
+      Printf.sprintf "dir=%s entry=%s marker=\"%s\" upload_var=%b crash=%b upload=%b mode=\"%s\" token=%s procs=%s token_created=%b dir_changed=%b"
+        src (match entry with EntryStart -> "Start" | EntryMaybeChild -> "MaybeChild-then-Start") (esc marker) uv crash upload (esc mode)
         (match tok with None -> "absent" | Some m -> "age " ^ tok_of_z (Z.opp m) ^ "ns")
         (show_procs procs) tok_created changed in
-    if not (start_ok marker uv cfg mode period now0 tok tok_created changed procs) then begin
+    if not (start_ok marker uv cfg emode period now0 tok tok_created changed procs) then begin
       let bad_side = List.exists (fun p -> not (delegated p)
-                                           && not (launch_ok marker uv cfg mode period now0 tok tok_created p)) procs in
+                                           && not (launch_ok marker uv cfg emode period now0 tok tok_created p)) procs in
       let n_side = List.length (List.filter (fun p -> not (delegated p)) procs) in
       let bad_dele = List.exists (fun p -> delegated p && not (beq p.p_marker lit_2)) procs in
       let recursion = bad_dele || n_side > (if marker = [] then 1 else 0) in
-      if beq mode lit_off && (procs <> [] || changed) then prop "off-inert" (detail ())
+      if beq emode lit_off && (procs <> [] || changed) then prop "off-inert" (detail ())
       else if recursion then prop "no-recursion" (detail ())
       else if bad_side then prop "launch-only-if" (detail ())
       else prop "start-ok" (detail ())
